@@ -144,6 +144,10 @@ def _restart(record, root):
         cfg["max_rank"] = 2
     if record["engine"] == "xl_damp":
         cfg["damp"] = 20.0
+    if record["engine"] in ("exc_xl", "xl_esmd"):
+        # excited-state surfaces: the history of transition densities is propagated and restored as well
+        cfg.update(n_states=2, active_state=1 + (record["seed"] % 2))
+        cfg["out"]["h5"]["transition_density_matrices"] = 1
     opts = {"io_seam": False}
     ref, run = os.path.join(root, "ref"), os.path.join(root, "run")
     os.makedirs(ref)
@@ -396,7 +400,7 @@ class C09(core.Check):
     assumptions = [
         "stability is sampled over the response grid gamma in {-0.05, 0, 0.3, 0.6, 0.9, 0.99} with a history-consistent perturbation at every buffer phase; this samples the admissible range, it is not a root-locus proof",
         "frozen bounds: amplification <= 2, no growth beyond 1.05 x the early maximum, fixed point to 1e-12",
-        "excited-state XL-BOMD is not covered beyond what C10's real-driver stratum runs",
+        "excited-state XL-BOMD / XL-ESMD: restart layer on the stub's synthetic transition densities (every k x phase); recurrence stability of the transition-density history is not analysed separately (same coefficient tables as the ground-state density)",
     ]
 
     def plan(self, tier, seed):
@@ -411,7 +415,7 @@ class C09(core.Check):
                     for g in GAMMAS:
                         recs.append({"i": i, "layer": "recurrence", "engine": eng, "k": k, "phase": phase, "gamma": g, "N": N, "seed": rng.randrange(1 << 30)})
                         i += 1
-        for eng in ("xl", "ksa", "xl_damp"):
+        for eng in ("xl", "ksa", "xl_damp", "exc_xl", "xl_esmd"):
             for k in range(3, 10):
                 for phase in range(k + 1):
                     rec = {"i": i, "layer": "restart", "engine": eng, "k": k, "phase": phase, "crash": rng.choice(["soft", "hard"]), "seed": rng.randrange(1 << 20)}
